@@ -65,7 +65,7 @@ def tasks(tier):
             ts.append({"name": f"feature:{nm}:x{sc}", "fn": "t_feature", "args": {"name": nm, "na": na, "scale": sc},
                        "max_paths": 8000, "witnesses": ["computed"]})
     ts.append({"name": "order-and-subsets", "fn": "t_order", "args": {}, "witnesses": ["computed"]})
-    for st in ("fresh", "unsuccessful", "no-contact-point"):
+    for st in ("fresh", "unsuccessful", "unsuccessful-with-stale-parameters", "no-contact-point"):
         ts.append({"name": f"unfitted:{st}", "fn": "t_unfitted", "args": {"state": st}})
     return ts
 
@@ -223,6 +223,11 @@ def t_unfitted(state):
     elif state == "unsuccessful":
         dict.__setitem__(fp, "success", False)
         dict.__delitem__(fp, "params_fitted")
+    elif state == "unsuccessful-with-stale-parameters":
+        # what a multi-pass fit leaves behind when a later pass has too few
+        # points: success False, NaN fit column, parameters of the first pass
+        dict.__setitem__(fp, "success", False)
+        idnt["fit"] = symnp.SymArr([float("nan")] * n)
     else:
         dict.__delitem__(fp["params_fitted"], "contact_point")
     for nm in ALL:
@@ -232,6 +237,8 @@ def t_unfitted(state):
             core.violated("no-exception-without-fit", info={"feature": nm, "state": state, "exception": repr(e)[:160]})
             continue
         if nm == "feat_bin_size" and state != "fresh":
+            if state == "no-contact-point":
+                pass
             prove("size-criterion-needs-only-an-attempted-fit", v in (True, False))
         else:
             prove(f"nan-without-successful-fit[{nm}]", is_nan(v), info={"value": repr(v)[:60]})
@@ -246,6 +253,42 @@ def classify(task, ob):
 def replay(task, ob, model):
     a = task["args"]
     g = lambda nm, d=0.0: float(model.get(nm, d))
+    if task["fn"] == "t_unfitted":
+        st = a["state"]
+        return common.REPLAY_HEAD + f'''
+import nanite, copy, warnings
+from nanite.rate.features import IndentationFeatures as IF
+from nanite.model import models_available
+from nanite.fit import FP_DEFAULT
+state = {st!r}
+n = 40
+x = np.linspace(1e-6, -1e-6, n); y = np.where(x < 0, (-x) ** 1.5 * 1e3, 0.0)
+i = nanite.Indentation(data={{"tip position": x, "force": y, "segment": np.zeros(n, dtype=np.uint8)}},
+                       metadata={{"path": "/s/c.jpk-force", "enum": 0, "point count": n, "imaging mode": "force-distance"}})
+fp = i.fit_properties
+if state != "fresh":
+    for k, v in FP_DEFAULT.items(): dict.__setitem__(fp, k, copy.deepcopy(v))
+    P = models_available["hertz_para"].get_parameter_defaults(); P["contact_point"].value = -2e-7
+    dict.__setitem__(fp, "params_fitted", P); dict.__setitem__(fp, "hash", "h")
+    dict.__setitem__(fp, "success", state == "no-contact-point")
+    i["fit"] = y * 1.01 if state == "no-contact-point" else np.full(n, np.nan)
+    if state == "unsuccessful": dict.__delitem__(fp, "params_fitted")
+    if state == "no-contact-point": dict.__delitem__(fp["params_fitted"], "contact_point")
+bad = []
+for nm in IF.get_feature_names():
+    try:
+        with warnings.catch_warnings():
+            warnings.simplefilter("ignore")
+            v = getattr(IF(i), nm)()
+    except Exception as e:
+        bad.append("%s raised %r" % (nm, e)); continue
+    if nm == "feat_bin_size" and state != "fresh": continue
+    if not (isinstance(v, float) and np.isnan(v)): bad.append("%s = %r without a successful fit" % (nm, v))
+print(state, bad[:5])
+if bad:
+    print("REPRODUCED"); sys.exit(1)
+sys.exit(0)
+'''
     if task["fn"] != "t_feature":
         return common.REPLAY_HEAD + f'''
 import nanite
